@@ -47,6 +47,7 @@ type State struct {
 	Dead    bool
 	// allocation epochs: heap array name -> Alloc array term as of last havoc (values in array are allocated wrt it)
 	AsOf map[string]*T
+	pendingRefs []*T // references introduced by a havoc, assumed allocated-or-nil at the next flush
 }
 
 func (s *State) Clone() *State {
@@ -193,6 +194,10 @@ type Exec struct {
 
 func (x *Exec) fresh(base string, s Sort) *T {
 	x.freshCtr++
+	if x.initMode {
+		// symbols of the package initialiser appear in the entry facts of every function: keep them apart from the function's own
+		return Sym(fmt.Sprintf("%s!i%d", strings.TrimSuffix(base, "!0"), x.freshCtr), s)
+	}
 	return Sym(fmt.Sprintf("%s!%d", strings.TrimSuffix(base, "!0"), x.freshCtr), s)
 }
 
@@ -218,6 +223,21 @@ func (x *Exec) wfArray(name string, t *T) {
 			} else {
 				sel := Select(t, r)
 				x.prog.defAxioms["wf:"+t.Op] = Forall([]*T{r}, pattern(Implies(Select(a0, r), Or(Eq(sel, IntLit(0)), Select(a0, sel))), sel))
+			}
+		}
+		return
+	}
+	if strings.HasPrefix(name, "MD_") {
+		// the nil map has no keys
+		x.prog.mu.Lock()
+		defer x.prog.mu.Unlock()
+		if _, ok := x.prog.defAxioms["wf:"+t.Op]; !ok {
+			_, vs := t.S.ArrParts()
+			if vs.IsArray() {
+				ks, _ := vs.ArrParts()
+				k := Sym("k!wf", ks)
+				sel := Select(Select(t, IntLit(0)), k)
+				x.prog.defAxioms["wf:"+t.Op] = Forall([]*T{k}, pattern(Not(sel), sel))
 			}
 		}
 		return
